@@ -13,7 +13,7 @@ INFO = dict(
     files=["dissect/cobaltstrike/beacon.py"],
     bounds=dict(
         quick="blocks of <=2 records, each with a fully symbolic 16-bit index (!=0, pairwise distinct) and 16-bit type, value length in "
-        "{0,1,2,4} with symbolic bytes, followed by 00 00 + <=2 symbolic trailing bytes, exact end of data, or a truncated record; "
+        "{0,1,2,4} with symbolic bytes, followed by 00 00 + 0/2/6/8 symbolic trailing bytes, exact end of data, or a truncated record; "
         "name/pretty views over an index domain {1, 2, 3, 5, 36, 37, highest defined, highest+1, 200, 65535} minus indices with a type-specific pretty-printer (symbolic choice); 128-byte "
         "User-Agent with a symbolic window and 0..3 continuation bytes before its NUL",
         thorough="<=3 records, lengths {0,1,2,3,4,6}",
@@ -269,7 +269,8 @@ def instances(tier):
     q = tier == "quick"
     out = []
     LENS = (0, 1, 2, 4) if q else (0, 1, 2, 3, 4, 6)
-    endings = [("term", 0), ("term", 2), ("eof", 0), ("trunc", 1), ("trunc", 3), ("trunc", 6), ("trunc", 7)]
+    # ("term", k): 00 00 terminator followed by k symbolic trailing bytes (6 and 8: room for a whole record header / record behind it)
+    endings = [("term", 0), ("term", 2), ("term", 6), ("term", 8), ("eof", 0), ("trunc", 1), ("trunc", 3), ("trunc", 6), ("trunc", 7)]
     for n in (range(0, 3) if q else range(0, 4)):
         for lens in itertools.product(LENS, repeat=n):
             if n == 3 and len(set(lens)) > 2:
@@ -278,6 +279,8 @@ def instances(tier):
                 if n == 2 and q and ending in (("trunc", 3), ("trunc", 7)) and lens[0] != lens[1]:
                     continue
                 if n == 3 and ending[0] == "trunc" and ending[1] != 6:
+                    continue
+                if ending in (("term", 6), ("term", 8)) and (n > 1 or (n == 1 and q and lens[0] not in (0, 2))):
                     continue
                 out.append(Instance("tlv lens=%s end=%s%d" % (list(lens), ending[0], ending[1]), h_tlv(lens, ending),
                                     dict(kind="tlv", lens=list(lens), ending=list(ending), cost=4 ** n)))
